@@ -37,6 +37,8 @@ KNOWN_TOKENS = {
     "depth-cascade-aliases-out-of-range-write": lambda kv, kind, t: kind == "mismatch" and "oor_alias" in t,
     # write enable = pin AND (condition on read data), write data = pin, read latency >= 1
     "pin-and-readcond-enable-write-one-cycle-early": lambda kv, kind, t: kind == "mismatch" and "pin_and_cond" in t,
+    # addResetLogic + read latency >= 1 + fix-up logic: the initialisation network stays connected, simulator reports a cycle
+    "addresetlogic-latency-fixup-cyclic": lambda kv, kind, t: kind == "reject" and kv.get("init") == "rlogic" and kv.get("pp") == "1" and "Cyclic dependency" in t,
 }
 
 
@@ -118,7 +120,7 @@ def gen_cases(rng, n_a, n_b, n_dev, tag):
         depth = rng.choice([2, 3, 4, 5, 6, 7, 8, 9]); width = rng.randint(1, 5)
         ports = ports_for(2, True, True)
         cases.append(line(f"a{i}", depth=depth, width=width, type="D", lat=rng.choice([0, 0, 1, 2, 3]), nc=int(rng.random() < 0.15),
-                          init=rng.choice(["none", "zero", "fill", "part"]), iseed=rng.randrange(1000), clk=rng.choice(["PS", "PN", "-S"]),
+                          init=rng.choice(["none", "zero", "fill", "part"]), iseed=rng.randrange(1000), clk=rng.choice(["PS", "PN", "-S", "PSL", "-SLA", "PAH"]),
                           dev="none", pp=0, exact=int(rng.random() < 0.5), ports=",".join(ports), ncyc=rng.choice([24, 40, 60]),
                           stim=rng.choice(stims), seed=rng.randrange(10 ** 6), xs=int(rng.random() < 0.5)))
     # (b) post-processed circuits
@@ -146,7 +148,7 @@ def gen_cases(rng, n_a, n_b, n_dev, tag):
         if nr >= 2 and rmw and lat in (3, -1):
             lat = 2
         cases.append(line(f"b{i}", depth=depth, width=width, type=typ, lat=lat, nc=nc, init=init, iseed=rng.randrange(1000),
-                          clk=rng.choice(["PS", "PN", "-S", "-N"]), dev=dev, pp=1, exact=0, ports=",".join(ports),
+                          clk=rng.choice(["PS", "PN", "-S", "-N", "PSL", "-SL", "-ALA", "PSHA", "-SLS3"]), dev=dev, pp=1, exact=0, ports=",".join(ports),
                           ncyc=rng.choice([30, 50, 70]), stim=rng.choice(stims), seed=rng.randrange(10 ** 6), xs=0))
     return cases
 
@@ -185,6 +187,36 @@ def gen_large(rng, n, tag):
                              f"iseed={rng.randrange(1000)}", f"clk={clk}", f"dev={dev}", "pp=1", "exact=0", f"ports={ports}",
                              f"ncyc={rng.choice([300, 450, 600])}", f"stim={'alt' if rng.random() < 0.85 else 'rand'}",
                              f"seed={rng.randrange(10 ** 6)}", "xs=0"]))
+    return out
+
+
+def gen_reset(rng, n, tag):
+    """reset-initialised contents x clock configurations: initZero / fill / part / addResetLogic, reset polarity LOW/HIGH,
+    synchronous / asynchronous (memory) reset, initializeMemory on/off, reset held longer than the minimum; every word is read
+    right after the reset release (stim=scan): expected = the declared contents, independent of the clock configuration"""
+    out = []
+    for i in range(n):
+        depth = rng.choice([2, 3, 4, 5, 7, 8, 9, 12]); width = rng.randint(2, 6)
+        init = ["rlogic", "fill", "zero", "part", "rlogic", "fill"][i % 6]
+        clk = rng.choice("P--") + rng.choice("SSSA") + "HL"[i % 2 if i < 8 else rng.randrange(2)] + rng.choice("SSA")
+        if rng.random() < 0.3:
+            clk += str(rng.choice([1, 2, 5, depth, 2 * depth + 1]))
+        lat = rng.choice([0, 0, 1, 2, 3])
+        ports = rng.choice(["R0,W1:p", "R0,W1:p", "W1:p,R0", "R0,W0:p", "R0,W0:r0+", "R0,W1:p,R1", "W0:p,R1,W1:p", "R0,W1:r0^"])
+        if ports.count("R") > 1 and ":r" in ports and lat >= 3:
+            lat = 2
+        dev = "none" if rng.random() < 0.8 else rng.choice(INTEL + XILINX)
+        typ = "D" if lat == 0 or dev != "none" or rng.random() < 0.6 else "M"
+        ppv = 1 if rng.random() < 0.9 else 0
+        if init == "rlogic":
+            # the initialisation network loops through the memory node until postprocess() cuts it (not simulable before);
+            # with read latency >= 1 and any fix-up logic (write declared before a read, RMW) it stays connected: reported finding
+            ppv = 1
+            if lat >= 1 and ports not in ("R0,W1:p", "R0,W0:p"):
+                ports = rng.choice(["R0,W1:p", "R0,W0:p"])
+        out.append(" ".join(["M", f"id={tag}Z{i}", f"depth={depth}", f"width={width}", f"type={typ}", f"lat={lat}", "nc=0", f"init={init}",
+                             f"iseed={rng.randrange(1000)}", f"clk={clk}", f"dev={dev}", f"pp={ppv}", "exact=0",
+                             f"ports={ports}", f"ncyc={rng.choice([30, 50])}", "stim=scan", f"seed={rng.randrange(10 ** 6)}", "xs=0"]))
     return out
 
 
@@ -361,7 +393,8 @@ def oracle(kv, hdr, lines, stats, tolerate=()):
     L = int(hdr["L"]); ports = parse_ports(kv["ports"])
     pp = kv["pp"] == "1"; clk = kv["clk"]
     haswr = any(p["kind"] in "WAV" for p in ports)
-    honoured = (clk[0] == "P" or not haswr) if not pp else (clk[0] == "P" or clk[1] == "S" or not haswr)
+    by_reset = pp and clk[1] != "N" and haswr           # generated reset logic loads the declared contents
+    honoured = by_reset if kv["init"] == "rlogic" else (clk[0] == "P" or not haswr or by_reset)
     mem = SparseMem(expand_words(hdr["words"]), honoured, depth)
     nrd = sum(1 for p in ports if p["kind"] in "REN")
     pipes = [[UNK] * L for _ in range(nrd)]       # read-latency registers per read port, newest first
@@ -591,6 +624,10 @@ def compare(agg, log, model, known_tokens, expect=None):
         big = int(kv["depth"]) > 16
         key = f"pp={kv['pp']} dev={kv['dev']} type={kv['type']} L={cs['hdr']['L']}" + (" large" if big else "")
         agg.cfg[key] += 1
+        if pp and kv["clk"][1:2] != "N" and n_writes(kv) and kv["init"] != "none":
+            c = kv["clk"]
+            agg.cfg[f"reset-initialised: init={kv['init']} initializeMemory={'on' if c[0] == 'P' else 'off'} memoryReset={c[1]} "
+                    f"active={'LOW' if c[2:3] == 'L' else 'HIGH'} regReset={c[3:4] or 'S'} hold={'longer' if len(c) > 4 else 'min'}"] += 1
         if any(p["cmode"] != "-" for p in parse_ports(kv["ports"])):
             agg.cfg[f"data-dependent write enable pp={kv['pp']} L={cs['hdr']['L']} stim={kv['stim']}"] += 1
         mp = cs["hdr"].get("map", "-")
@@ -769,6 +806,7 @@ def main():
         rng = random.Random(seed * 7919 + i * 104729 + (1 if tiername == "quick" else 2))
         lats = [5, 6, 7, 3, 0, 1, 2, 4, 8]
         shards.append(gen_large(rng, n_large, f"s{i}_") + gen_datadep(rng, 18 if tiername == "quick" else 180, f"s{i}_", lats[i % 3:] + lats[:i % 3])
+                      + gen_reset(rng, 24 if tiername == "quick" else 250, f"s{i}_")
                       + gen_cases(rng, n_a, n_b, n_dev, f"s{i}_"))
     tmo = 150 if tiername == "quick" else 900
     with ThreadPoolExecutor(max_workers=min(nshards, V.NCPU)) as ex:
